@@ -79,6 +79,7 @@ type VirtualISO struct {
 	padAreaSize  sizeBytes
 	fsBuf        iso9660encoder // binary-encoded filesystem structures
 	files        filesList      // ordered by location list of files to read from fs
+	openedFile   *fileItem      // the only item of files which can have opened file
 	offset       sizeBytes      // used during Read and Seek
 }
 
@@ -761,10 +762,20 @@ func (viso *VirtualISO) readFilesArea(buf []byte, offset sizeBytes) (int, error)
 		return n, nil
 	}
 
+	// keep only one member file opened: image may consist of thousands of files
+	// and all of them would stay opened after the first sequential pass (for every client)
+	if viso.openedFile != nil && viso.openedFile != fileItem {
+		if err := viso.openedFile.closeOpened(); err != nil {
+			return 0, fmt.Errorf("failed to close %s: %w", viso.openedFile.path, err)
+		}
+	}
+
 	f, err := fileItem.openOnDemand(viso.fs)
 	if err != nil {
 		return 0, fmt.Errorf("failed to open %s: %w", fileItem.path, err)
 	}
+
+	viso.openedFile = fileItem
 
 	toRead := int(min(sizeBytes(len(buf)), fileItem.size-fileOffset))
 
